@@ -21,6 +21,7 @@ import Driver.Shapes
 import Driver.SpecFmt
 import Driver.Threads
 import Driver.UsingSalt
+import Driver.Saslprep
 /-
 Line protocol driver: `<suite> <op> <args…>` per input line, one result line out.
 Compiled (`lean_exe modeldrv`); nothing imported here touches Mathlib.
@@ -50,6 +51,7 @@ def dispatch (line : String) : String :=
   | "sfmt" :: rest => Driver.SpecFmt.handle rest
   | "threads" :: rest => Driver.Threads.handle rest
   | "usalt" :: rest => Driver.UsingSalt.handle rest
+  | "sasl" :: rest => Driver.Saslprep.handle rest
   | _ => Driver.bad
 
 partial def loop (h : IO.FS.Stream) (out : IO.FS.Stream) : IO Unit := do
